@@ -857,6 +857,11 @@ func (r *Run) opRestart(op *Op) {
 		u.Gone = true
 	}
 	after := r.snapshotStore()
+	for _, sn := range []*storeSnap{before, after} {
+		for _, bs := range sn.Buckets {
+			bs.Uploads = nil // pending multipart uploads are held in memory only and are not part of the promise
+		}
+	}
 	if d := diffSnap(before, after); d != "" {
 		r.fail("restart.equal", "state after close+reopen differs from the state before: "+snapSig(d)+" "+r.bctx(), "identical buckets, keys, bodies, sizes, ETags, metadata", d)
 	}
